@@ -226,7 +226,8 @@ func TestVerifC22(t *testing.T) {
 // c22CloseWindow — part 3: the handler must also be invoked only on a change when the update
 // races with Close(): every interleaving (<= 1 preemption) of Close() with an ICE agent state
 // callback on a connection whose transports are starting. "closed" is absorbing, so it can be
-// reported at most once whatever the order in which the handler goroutines run.
+// reported at most once whatever the order in which the handler goroutines run; and once everything returned
+// the stored state is the aggregate of a set closed flag, i.e. closed.
 func c22CloseWindow(t *testing.T, c *vkit.Check) {
 	vsched.ICEMode.Store(vsched.ICEBlock)
 	vpPool(t)
@@ -247,6 +248,18 @@ func c22CloseWindow(t *testing.T, c *vkit.Check) {
 				}
 			}
 			c.Distinct(fmt.Sprintf("close-window|%s|%v", sc.name(), w.connStates))
+			// "closed if closed": every call of the scenario has returned, Close among them, so the closed flag
+			// is set and the stored state has to be its aggregate - whatever update was in flight meanwhile
+			if w.x != nil && w.x.isClosed.Load() && w.x.ConnectionState() != PeerConnectionStateClosed {
+				got := w.x.ConnectionState()
+				body2, w2 := c21Body(t, sc)
+				vsched.Run(vsched.Config{}, r.Choices, nil, body2)
+				if w2.x != nil && w2.x.ConnectionState() == got {
+					c.Violation("aggregate|close-window|stored-state-not-closed|is="+got.String(),
+						fmt.Sprintf("scenario %s: Close returned and every transport callback finished, the closed flag is set, but ConnectionState() is %s (handler saw %v)", sc.name(), got, w.connStates),
+						map[string]any{"scenario": sc, "choices": r.Choices})
+				}
+			}
 			if n > 1 {
 				body2, w2 := c21Body(t, sc)
 				vsched.Run(vsched.Config{}, r.Choices, nil, body2)
